@@ -71,7 +71,7 @@ def fft(data, shift=True):
                 axes=[data.dims.index('x'), data.dims.index('y')])
 
     if isinstance(data, xr.DataArray):
-        res = xr.DataArray(res, **transform_metadata(data, False))
+        res = xr.DataArray(res, **transform_metadata(data, False, shift))
     return res
 
 
@@ -124,11 +124,11 @@ def ifft(data, shift=True):
 
 
 #The following handles transforming coordinates for fft/ifft
-def transform_metadata(a, inverse):
+def transform_metadata(a, inverse, shift=True):
     dims=list(a.dims)
 
     if not inverse:
-        coords = ft_coords(a.coords)
+        coords = ft_coords(a.coords, shift)
         dims[dims.index('x')]='m'
         dims[dims.index('y')]='n'
     else:
@@ -146,24 +146,26 @@ def get_spacing(c):
     return spacing[0]
 
 
-def ft_coord(c):
+def ft_coord(c, shift=True):
+    # the frequencies of the DFT bins: j / (N * spacing), in the order
+    # j = -N//2 ... (N-1)//2 when shifted, 0 ... (N-1)//2, -N//2 ... -1
+    # otherwise
     spacing = get_spacing(c)
     dim = len(c)
-    ext = spacing * dim
-    return np.linspace(-dim/(2*ext), dim/(2*ext), dim)
+    freqs = np.fft.fftfreq(dim, spacing)
+    return np.fft.fftshift(freqs) if shift else freqs
 
 
 def ift_coord(c):
-    spacing = get_spacing(c)
+    spacing = get_spacing(np.sort(c))
     dim = len(c)
-    ext = spacing * dim
-    return np.linspace(0, dim/ext, dim)
+    return np.arange(dim) / (dim * spacing)
 
 
-def ft_coords(cs):
+def ft_coords(cs, shift=True):
     d = {k: v.values for k, v in cs.items()}
-    d['m'] = ft_coord(d.pop('x'))
-    d['n'] = ft_coord(d.pop('y'))
+    d['m'] = ft_coord(d.pop('x'), shift)
+    d['n'] = ft_coord(d.pop('y'), shift)
     return d
 
 
